@@ -38,7 +38,8 @@ type C11Plan struct {
 	Backends []c11Backend `json:"backends"`
 	SlotBk   []int        `json:"slot_backend"` // backend of each session slot
 	Steps    []c11Step    `json:"steps"`
-	Dup      bool         `json:"dup"` // run the same-ID scenario instead
+	Parked   bool         `json:"parked"` // finish with the parked-session scenario
+	Dup      bool         `json:"dup"`    // run the same-ID scenario instead
 	DupN     int          `json:"dup_n"`
 	DupAt    [2]int       `json:"dup_at"`
 	DupGapMs int          `json:"dup_gap_ms"`
@@ -117,6 +118,7 @@ func genC11(seed uint64, tier string) any {
 		}
 		p.Steps = append(p.Steps, st)
 	}
+	p.Parked = r.Bool(0.3)
 	return p
 }
 
@@ -444,6 +446,73 @@ func runC11(t *testing.T, planAny any, res *simnet.Result) {
 			verify(si, st)
 			if len(res.Violations) > 0 {
 				break
+			}
+		}
+		// ---- a session that has ended while its receive loop is still busy: peer qa's session is parked forwarding a
+		// datagram to peer qb, who has stopped reading; qa's transport goes away and qa connects again.  Until the old
+		// session has been forgotten the new one is a duplicate; afterwards exactly one session of qa may exist.
+		if p.Parked && len(res.Violations) == 0 {
+			c := simnet.DyadicCost(1, 5)
+			mk := func(name, script string) (*simnet.Link, *simnet.Session) {
+				l, sess, err := m.AttachScripted(v, simnet.LinkCfg{Name: name, Latency: time.Millisecond + time.Duration(len(name)*131)*time.Nanosecond, FIFO: true}, script, c)
+				if err != nil {
+					return nil, nil
+				}
+				return l, sess
+			}
+			helloAs := func(sess *simnet.Session, id string) {
+				seq++
+				_ = sess.Send(routeMsg(&simnet.RoutingUpdate{NodeID: id, UpdateID: nextID(), UpdateEpoch: 12 << 24, UpdateSequence: seq, Connections: map[string]float64{"v": c}, ForwardingNode: id}))
+			}
+			la, sa := mk("PA", "zqa")
+			_, sb := mk("PB", "zqb")
+			if la != nil && sb != nil {
+				time.Sleep(50 * time.Millisecond)
+				helloAs(sa, "qa")
+				helloAs(sb, "qb")
+				time.Sleep(time.Second)
+				sb.BlockPeerSend(true) // qb stops reading
+				time.Sleep(10 * time.Millisecond)
+				for i := 0; i < 2; i++ { // the first fills the writer, the second parks qa's receive loop on the hand-over (its reader stays free to see the transport end)
+					_ = sa.Send(simnet.DataPacket(20, "qa", "qb", "src", "dst", []byte{byte(i)}))
+					time.Sleep(time.Millisecond)
+				}
+				time.Sleep(100 * time.Millisecond)
+				_ = sa.Close() // qa's transport ends
+				time.Sleep(200 * time.Millisecond)
+				sa2, err := m.ReconnectScripted(la)
+				if err == nil {
+					time.Sleep(50 * time.Millisecond)
+					helloAs(sa2, "qa")
+					time.Sleep(time.Second)
+					sb.BlockPeerSend(false) // qb drains; the old session of qa can finish
+					time.Sleep(2 * time.Second)
+					_, sa3 := mk("PC", "zqc")
+					if sa3 != nil {
+						time.Sleep(50 * time.Millisecond)
+						helloAs(sa3, "qa")
+						time.Sleep(2 * time.Second)
+						simnet.Quiesce()
+						open := 0
+						for _, x := range []*simnet.Session{sa2, sa3} {
+							if x.Open() {
+								open++
+							}
+						}
+						n := 0
+						for _, cn := range v.Net().Status().Connections {
+							if cn.NodeID == "qa" {
+								n++
+							}
+						}
+						res.Add("probe_parked_session_reconnect", 1)
+						if open > 1 {
+							res.Violate("c11:same-id-twice", "after a session of qa ended while its receive loop was parked, %d sessions announcing qa are open at once", open)
+						} else if open == 1 && n != 1 {
+							res.Violate("c11:connections-mismatch", "one session of qa is open and was not rejected, but the victim lists %d connections to qa", n)
+						}
+					}
+				}
 			}
 		}
 		dumpWire(w, "")
